@@ -264,7 +264,18 @@ fn c10_history(rng: &mut Rng, c: u32, l: u32, n: usize) -> Vec<Op> {
             83..=88 => Op::Api(CursorPosition(gen::param(rng, l), gen::param(rng, c))),
             89..=91 => Op::Api(Index),
             92..=94 => Op::Api(ReverseIndex),
-            95..=96 => Op::Api(SetMode(vec![4], false)),
+            95 => Op::Api(SetMode(vec![4], false)),
+            96 => {
+                // a combining mark at column 0: its target is the last cell of the row above,
+                // which may never have been written (or was vacated by DL)
+                let y = rng.range(1, l.max(2));
+                if rng.bool() {
+                    ops.push(Op::Api(CursorPosition(Some(y.saturating_sub(1).max(1)), Some(1))));
+                    ops.push(Op::Api(DeleteLines(Some(1))));
+                }
+                ops.push(Op::Api(CursorPosition(Some(y), Some(1))));
+                Op::Api(Draw(format!("{}{}", rng.pick(&gen::COMBINING), if rng.bool() { "q" } else { "" })))
+            }
             97 => Op::ClearDirty,
             _ => Op::Api(gen::api_call(rng, c, l)),
         };
